@@ -18,6 +18,14 @@ class Cell(NullCell):
     If you want to write to cell use .to_builder() method.
     """
     def __init__(self, bits: BitarrayLike, refs: typing.List["Cell"], cell_type: int = -1) -> None:
+        # A cell owns its content: it keeps its own snapshot of the bit string (in big-endian bit order, the order the
+        # format is defined in) and of the list of references, so that a caller who goes on using the objects it passed
+        # in cannot reach into the cell after its hashes were computed.
+        if (bits.endian() if callable(bits.endian) else bits.endian) != 'big':  # a method in bitarray 2, an attribute in 3
+            bits = TvmBitarray(1023, bits.to01()) if isinstance(bits, TvmBitarray) else type(bits)(bits.to01(), endian='big')
+        else:
+            bits = bits.copy()
+        refs = list(refs)
         self.bits: BitarrayLike = bits
         self.refs: list = refs
         self.type_: int = cell_type
